@@ -83,6 +83,13 @@ pub fn alphabet() -> Vec<Build> {
         Build::Str("include-of-file-of-caller-dir", ".include \"c17only.inc\"\nnop\n"),
         // the same message several times among others (a macro that prints, called more than once)
         Build::Str("messages-repeated-from-macro", ".macro note_m\n.message \"tick\"\nnop\n.endm\n.message \"a\"\nnote_m\n.message \"b\"\nnote_m\n.message \"c\"\n.warning \"d\"\nnote_m\n.message \"e\"\n"),
+        // device names near, but not in, the table; directives that are rarely used or not supported
+        Build::Str("device-name-with-suffix-A", ".device ATmega328PB\n.dseg\nv_a: .byte 1\n.cseg\nlds r16, v_a\n"),
+        Build::Str("device-name-with-suffix-B", ".device ATmega168PA\n.dseg\nv_b: .byte 1\n.cseg\nlds r16, v_b\n.dw v_b\n"),
+        Build::Str("device-name-with-suffix-C", ".device ATmega88PA\n.dseg\nv_c: .byte 2\n.cseg\nsts v_c, r1\n"),
+        Build::Str("listing-directives", ".nolist\nnop\n.list\nnop\n"),
+        Build::Str("listmac-directive", ".listmac\n.macro lm\nnop\n.endm\nlm\n"),
+        Build::Str("rare-directives", ".pragma AVRPART ADMIN PART_NAME none\n.overlap\n.csegsize 12\nnop\n.nooverlap\n.dd 1\n.dq 2\n.exit\nnop\n"),
         Build::Str("messages-repeated-top-level", ".message \"x\"\n.message \"y\"\n.message \"x\"\n.warning \"z\"\n.message \"w\"\n.message \"v\"\n.message \"y\"\nnop\n"),
     ]
 }
@@ -166,11 +173,29 @@ pub fn run(tier: Tier) -> i32 {
     // reference: each build alone in a fresh process, cross-checked with the first in-process run
     let exe = std::env::current_exe().unwrap_or_else(|e| machinery_fail(&format!("current_exe: {}", e)));
     let mut reference: Vec<Value> = vec![];
+    let fresh_runs = if tier.thorough() { 16 } else { 8 };
     for i in 0..n {
-        let out = Command::new(&exe).arg("worker17").arg(i.to_string()).arg(dir.display().to_string()).env("RUST_BACKTRACE", "0").output().unwrap_or_else(|e| machinery_fail(&format!("cannot spawn fresh-process baseline: {}", e)));
-        let text = String::from_utf8_lossy(&out.stdout);
-        let v: Value = serde_json::from_str(text.trim()).unwrap_or_else(|e| machinery_fail(&format!("fresh-process baseline for {} is not JSON ({}): {}", alpha[i].name(), e, text)));
-        reference.push(v);
+        let mut first: Option<Value> = None;
+        for run in 0..fresh_runs {
+            let out = Command::new(&exe).arg("worker17").arg(i.to_string()).arg(dir.display().to_string()).env("RUST_BACKTRACE", "0").output().unwrap_or_else(|e| machinery_fail(&format!("cannot spawn fresh-process baseline: {}", e)));
+            let text = String::from_utf8_lossy(&out.stdout);
+            let v: Value = serde_json::from_str(text.trim()).unwrap_or_else(|e| machinery_fail(&format!("fresh-process baseline for {} is not JSON ({}): {}", alpha[i].name(), e, text)));
+            match &first {
+                None => first = Some(v),
+                Some(f) => {
+                    // the same build alone in another fresh process: what a process decides once for
+                    // itself (the order of a process-wide table, say) must not show in the result
+                    if f != &v {
+                        rep.violation(
+                            &format!("C17/differs-between-fresh-processes/build={}", alpha[i].name()),
+                            || format!("build '{}' alone in a fresh process gives {} in one process and {} in another", alpha[i].name(), f, v),
+                            || json!({"kind": "history", "build": alpha[i].name(), "how": "fresh-process", "context": {"fresh_process_run": run}, "expected": f, "observed": v}),
+                        );
+                    }
+                }
+            }
+        }
+        reference.push(first.unwrap());
     }
     let kinds: BTreeSet<String> = reference.iter().map(|v| v["r"].as_str().unwrap_or("").to_string()).collect();
     rep.guard(kinds.contains("ok") && kinds.contains("err"), "the alphabet must contain building and failing programs");
@@ -422,6 +447,7 @@ pub fn run(tier: Tier) -> i32 {
         "schedule_replayed_twice_identical": replay_checked,
         "free_running_uncontrolled_builds": free_total,
         "repetitions_fresh_hash_seeds": n * reps,
+        "fresh_process_runs_per_build": fresh_runs,
         "build_outcomes_compared": evals.load(Ordering::Relaxed),
         "exhaustive": true,
         "caps_hit": [],
